@@ -296,3 +296,146 @@ Proof.
   unfold predict_block. cbn [execute]. unfold run_dir.
   destruct (run_blocks (oracle_setup perkey) [100%N] _ 0 0%N); reflexivity.
 Qed.
+
+(* ---- sequences of loads in one process ----
+   The state a setup function sees is (process-global part, part that belongs to the load being made).  Every load
+   starts from a fresh second part [l0] and from the global part the loads before it - accepted or REJECTED - left.
+   If setups and callbacks (a) cannot tell apart global states related by [R] (a transparent cache, a mutex that is
+   free again) and (b) leave the global part as they found it up to [R] whatever they answer - in particular on
+   every error path - then what a configuration does does not depend on what was loaded or rejected before it. *)
+Section Seq.
+Context {A G L : Type}.
+Variable setup : bytes -> nat -> nat -> bytes -> list A -> G * L -> outcome (G * L).
+Variable callback : bytes -> G * L -> outcome (G * L).
+Variable R : G -> G -> Prop.
+Hypothesis R_refl : forall g, R g g.
+Hypothesis R_trans : forall a b c, R a b -> R b c -> R a c.
+Definition RL (a b : G * L) : Prop := R (fst a) (fst b) /\ snd a = snd b.
+Hypothesis setup_resp : forall d i j k t s1 s2, RL s1 s2 -> orel RL RL (setup d i j k t s1) (setup d i j k t s2).
+Hypothesis cb_resp : forall d s1 s2, RL s1 s2 -> orel RL RL (callback d s1) (callback d s2).
+Hypothesis setup_frame : forall d i j k t s, R (fst s) (fst (out_state (setup d i j k t s))).
+Hypothesis cb_frame : forall d s, R (fst s) (fst (out_state (callback d s))).
+
+Lemma execute_resp cbs bs : forall dirs s1 s2, RL s1 s2 ->
+  orel RL RL (execute setup callback cbs dirs bs s1) (execute setup callback cbs dirs bs s2).
+Proof.
+  induction dirs as [|d r IH]; intros s1 s2 H; cbn [execute]; [exact H|].
+  unfold run_dir. pose proof (blocks_sim setup setup RL RL setup_resp d bs 0%nat s1 s2 H) as Hb.
+  destruct (run_blocks setup d bs 0 s1) as [a|a], (run_blocks setup d bs 0 s2) as [b|b]; cbn in Hb; try contradiction.
+  - destruct cbs.
+    + pose proof (cb_resp d a b Hb) as Hc.
+      destruct (callback d a) as [a'|a'], (callback d b) as [b'|b']; cbn in Hc; try contradiction.
+      * apply IH. exact Hc.
+      * exact Hc.
+    + apply IH. exact Hb.
+  - exact Hb.
+Qed.
+
+Lemma keys_frame d i toks : forall keys j s, R (fst s) (fst (out_state (run_keys setup d i toks keys j s))).
+Proof.
+  induction keys as [|k r IH]; intros j s; cbn [run_keys]; [apply R_refl|].
+  pose proof (setup_frame d i j k toks s) as F.
+  destruct (setup d i j k toks s) as [s'|s']; cbn in F.
+  - eapply R_trans; [exact F|apply IH].
+  - exact F.
+Qed.
+
+Lemma blocks_frame d : forall bs i s, R (fst s) (fst (out_state (run_blocks setup d bs i s))).
+Proof.
+  induction bs as [|b r IH]; intros i s; cbn [run_blocks]; [apply R_refl|].
+  assert (F : R (fst s) (fst (out_state (run_block setup d i b s)))).
+  { unfold run_block. destruct (tokens_of (snd b) d); [apply keys_frame|apply R_refl]. }
+  destruct (run_block setup d i b s) as [s'|s']; cbn in F.
+  - eapply R_trans; [exact F|apply IH].
+  - exact F.
+Qed.
+
+Lemma execute_frame cbs bs : forall dirs s, R (fst s) (fst (out_state (execute setup callback cbs dirs bs s))).
+Proof.
+  induction dirs as [|d r IH]; intros s; cbn [execute]; [apply R_refl|].
+  assert (F : R (fst s) (fst (out_state (run_dir setup callback cbs d bs s)))).
+  { unfold run_dir. pose proof (blocks_frame d bs 0%nat s) as B.
+    destruct (run_blocks setup d bs 0 s) as [s'|s']; cbn in B; [|exact B].
+    destruct cbs; [|exact B]. eapply R_trans; [exact B|apply cb_frame]. }
+  destruct (run_dir setup callback cbs d bs s) as [s'|s']; cbn in F.
+  - eapply R_trans; [exact F|apply IH].
+  - exact F.
+Qed.
+
+Variable l0 : L.
+(* one load: mode, directive list, server blocks *)
+Definition conf : Type := (bool * list bytes * list (@block A))%type.
+Definition load (c : conf) (g : G) : outcome (G * L) :=
+  execute setup callback (fst (fst c)) (snd (fst c)) (snd c) (g, l0).
+(* the global state after a sequence of loads, whatever each of them answered *)
+Fixpoint after_loads (cs : list conf) (g : G) : G :=
+  match cs with
+  | [] => g
+  | c :: r => after_loads r (fst (out_state (load c g)))
+  end.
+
+Lemma after_loads_frame : forall cs g, R g (after_loads cs g).
+Proof.
+  induction cs as [|c r IH]; intros g; cbn [after_loads]; [apply R_refl|].
+  eapply R_trans; [|apply IH]. unfold load. apply (execute_frame (fst (fst c)) (snd c) (snd (fst c)) (g, l0)).
+Qed.
+
+Theorem outcome_after_any_loads cs g c :
+  out_ok (load c (after_loads cs g)) = out_ok (load c g) /\
+  R (fst (out_state (load c g))) (fst (out_state (load c (after_loads cs g)))) /\
+  snd (out_state (load c (after_loads cs g))) = snd (out_state (load c g)).
+Proof.
+  pose proof (after_loads_frame cs g) as F.
+  assert (H : RL (g, l0) (after_loads cs g, l0)) by (split; [exact F|reflexivity]).
+  pose proof (execute_resp (fst (fst c)) (snd c) (snd (fst c)) _ _ H) as E. unfold load.
+  destruct (execute setup callback (fst (fst c)) (snd (fst c)) (snd c) (g, l0)) as [x|x],
+           (execute setup callback (fst (fst c)) (snd (fst c)) (snd c) (after_loads cs g, l0)) as [y|y];
+    cbn in E; try contradiction; destruct E as [E1 E2]; cbn; auto.
+Qed.
+End Seq.
+
+(* an instance that is not trivial: the global part is a table that setups only ever extend (a cache: tokens seen)
+   and that no setup reads; the per-load part counts the calls; a token 7 is rejected AFTER the table was written *)
+Definition seq_setup (d : bytes) (i j : nat) (k : bytes) (toks : list N) (s : list N * nat) : outcome (list N * nat) :=
+  if existsb (N.eqb 7) toks then Stop (toks ++ fst s, snd s) else Cont (toks ++ fst s, S (snd s)).
+Definition seq_callback (d : bytes) (s : list N * nat) : outcome (list N * nat) := Cont s.
+
+(* ... and one that violates the frame hypothesis: the global part is a mutex; a setup that meets it held never
+   returns (here: is rejected), the error path for a token 7 returns with the mutex held *)
+Definition lock_setup (d : bytes) (i j : nat) (k : bytes) (toks : list N) (s : bool * nat) : outcome (bool * nat) :=
+  if fst s then Stop s
+  else if existsb (N.eqb 7) toks then Stop (true, snd s) else Cont (false, S (snd s)).
+Definition lock_callback (d : bytes) (s : bool * nat) : outcome (bool * nat) := Cont s.
+
+Lemma lock_left_held_refuted :
+  exists (bad good : @conf N),
+    out_ok (load lock_setup lock_callback 0%nat good false) = true /\
+    out_ok (load lock_setup lock_callback 0%nat bad false) = false /\
+    out_ok (load lock_setup lock_callback 0%nat good (after_loads lock_setup lock_callback 0%nat [bad] false)) = false.
+Proof.
+  exists (false, [[100%N]], [([[1%N]], [([100%N], [7%N])])]), (false, [[100%N]], [([[1%N]], [([100%N], [0%N])])]).
+  vm_compute. auto.
+Qed.
+
+(* the one process-global resource a setup function of the tree takes and must give back: the mutex of the htpasswd
+   table of basicauth (model of GetHtpasswdMatcher: C08_Model.get_matcher).  On EVERY path - file missing, file that
+   does not parse, user not found, success - the call returns (it never waits for itself) with the mutex free, so
+   the next `basicauth ... htpasswd=` rule of the process, in this load or a later one, does not block *)
+Require V.C08_Model V.C08_Proofs.
+Lemma htpasswd_lock_released e g f u r g' o :
+  C08_Model.g_htlock g = false -> C08_Model.get_matcher e g f u = (r, g', o) ->
+  r <> C08_Model.RHang /\ C08_Model.g_htlock g' = false.
+Proof.
+  intros L H. split.
+  - exact (C08_Proofs.get_matcher_no_hang e g f u r g' o L H).
+  - rewrite (C08_Proofs.c_lock _ _ (C08_Proofs.get_matcher_cext e g f u r g' o H)). exact L.
+Qed.
+
+Lemma htpasswd_lock_released_twice e1 e2 g f1 u1 f2 u2 r1 g1 o1 :
+  C08_Model.g_htlock g = false -> C08_Model.get_matcher e1 g f1 u1 = (r1, g1, o1) ->
+  fst (fst (C08_Model.get_matcher e2 g1 f2 u2)) <> C08_Model.RHang.
+Proof.
+  intros L H. destruct (htpasswd_lock_released _ _ _ _ _ _ _ L H) as [_ L1].
+  destruct (C08_Model.get_matcher e2 g1 f2 u2) as [[r2 g2] o2] eqn:H2. cbn.
+  exact (proj1 (htpasswd_lock_released _ _ _ _ _ _ _ L1 H2)).
+Qed.
